@@ -42,6 +42,10 @@ pub fn exp_reject() -> Vec<TimeVal> {
         rel("now-1h", -3600),
         rel("now-600", -600),
         rel("now-300", -300),
+        TimeVal { label: "now-1d_float", offset: Some(-86400), fixed: None, float: true },
+        TimeVal { label: "now-600_float", offset: Some(-600), fixed: None, float: true },
+        fix("1700000000.0_float", json!(1700000000.0)),
+        fix("0.5_float", json!(0.5)),
     ]
 }
 pub fn exp_accept() -> Vec<TimeVal> {
